@@ -3,7 +3,7 @@
    correspondence breaks; they are tests, never a substitute for the theorems. *)
 From Coq Require Import String.
 From HS Require Import Lib.Base Lib.Bytes Lib.Dec Model.Range Model.Etag Model.Body Model.Serve
-  Spec.RangeGrammar Run.Val Run.ServeRun.
+  Spec.RangeGrammar Spec.Multipart Spec.Validators Run.Val Run.ServeRun.
 
 (* ---- decoded observation ---- *)
 Inductive ores := OPending | OData (b : bytes) | OEnd | OErr (kind n : N) | OPanic | OOther.
@@ -61,9 +61,7 @@ Definition all_data (p : list (ores * option N * bool)) : bytes := flat_map (fun
 
 (* the entity's content function (shared with the harness) *)
 Definition content (p : N) : N := ((p mod 251) + 7 * ((p / 251) mod 13) + ((p / 65536) mod 256)) mod 256.
-Fixpoint content_from (a : N) (n : nat) : bytes :=
-  match n with O => [] | S k => content a :: content_from (a + 1) k end.
-Definition content_range (a e : N) : bytes := content_from a (N.to_nat (e - a)).
+Definition content_range := Spec.Multipart.content_range content.
 
 Definition ev_data (e : ev) : bytes := match e with EvData b => b | _ => [] end.
 Definition ev_is_err (e : ev) : bool := match e with EvErr _ => true | _ => false end.
@@ -165,6 +163,15 @@ Definition spec_c02 (i : sinput) (o : sobs) : list val :=
   else check (match o_calls o with [] => true | _ => false end) "C02" "no-entity-bytes-on-other-statuses".
 
 (* ---- C03: Range resolution ---- *)
+(* hints: association list ( (key value) ... ) supplied by the generator *)
+Fixpoint hint_get (k : N) (l : list val) : option val :=
+  match l with
+  | [] => None
+  | VL [VN k'; v] :: t => if k =? k' then Some v else hint_get k t
+  | _ :: t => hint_get k t
+  end.
+Definition hints_of (v : val) : list val := match v with VL l => l | _ => [] end.
+
 Inductive range_hint := RHAst (l : list (bytes * rspec)) | RHNonGrammatical | RHUnknown.
 Definition dec_rspec (v : val) : option rspec :=
   match v with
@@ -174,11 +181,11 @@ Definition dec_rspec (v : val) : option rspec :=
   | _ => None
   end.
 Definition dec_range_hint (v : val) : range_hint :=
-  match v with
-  | VL [VL [VN 0; ast]] =>
+  match hint_get 0 (hints_of v), hint_get 1 (hints_of v) with
+  | Some ast, _ =>
       match vlist (vpair vbytes dec_rspec) ast with Some l => RHAst l | None => RHUnknown end
-  | VL [VL [VN 1]] => RHNonGrammatical
-  | _ => RHUnknown
+  | None, Some _ => RHNonGrammatical
+  | None, None => RHUnknown
   end.
 
 Definition ds_bounded (s : bytes) : bool := dval s <? U64.
@@ -193,14 +200,14 @@ Definition only_range (r : request) : bool :=
 
 Fixpoint sum_lens (rs : list (N * N)) : N := match rs with [] => 0 | (a, e) :: t => (e - a) + sum_lens t end.
 
-Definition spec_c03 (i : sinput) (hint : range_hint) (o : sobs) : list val :=
-  if negb (only_range (i_req i)) || negb (is_get i || is_head i) then [] else
+(* What the response to a request whose Range header is in force must look like. *)
+Definition range_expect (prop : string) (i : sinput) (hint : range_hint) (o : sobs) : list val :=
   let L := e_len (i_ent i) in
   let cr := hdr_values H_CONTENT_RANGE (o_hdrs o) in
   let ignored :=
-    check (o_status o =? 200) "C03" "ignored-range-gives-200"
-    ++ check (match cr with [] => true | _ => false end) "C03" "ignored-range-no-content-range"
-    ++ (if is_get i then check (calls_eqb (o_calls o) [(0, L)]) "C03" "ignored-range-full-body" else []) in
+    check (o_status o =? 200) prop "ignored-range-gives-200"
+    ++ check (match cr with [] => true | _ => false end) prop "ignored-range-no-content-range"
+    ++ (if is_get i then check (calls_eqb (o_calls o) [(0, L)]) prop "ignored-range-full-body" else []) in
   match r_range (i_req i), hint with
   | None, _ => ignored
   | Some _, RHNonGrammatical => ignored
@@ -209,28 +216,290 @@ Definition spec_c03 (i : sinput) (hint : range_hint) (o : sobs) : list val :=
       if negb (forallb (fun p => rspec_bounded (snd p)) ast) then ignored else
       match filter_map (resolve1 L) (map snd ast) with
       | [] =>
-          check (o_status o =? 416) "C03" "nothing-satisfiable-gives-416"
-          ++ check (match cr with [v] => beq_bytes v (bs "bytes */" ++ dec L) | _ => false end) "C03" "416-content-range"
-          ++ check (match o_calls o with [] => true | _ => false end) "C03" "416-reads-nothing"
+          check (o_status o =? 416) prop "nothing-satisfiable-gives-416"
+          ++ check (match cr with [v] => beq_bytes v (bs "bytes */" ++ dec L) | _ => false end) prop "416-content-range"
+          ++ check (match o_calls o with [] => true | _ => false end) prop "416-reads-nothing"
       | [(a, e)] =>
-          check (o_status o =? 206) "C03" "one-range-gives-206"
+          check (o_status o =? 206) prop "one-range-gives-206"
           ++ check (match cr with [v] => beq_bytes v (bs "bytes " ++ dec a ++ [45] ++ dec (e - 1) ++ [47] ++ dec L) | _ => false end)
-               "C03" "206-content-range-is-that-range"
-          ++ (if is_get i then check (calls_eqb (o_calls o) [(a, e)]) "C03" "206-reads-that-range" else [])
+               prop "206-content-range-is-that-range"
+          ++ (if is_get i then check (calls_eqb (o_calls o) [(a, e)]) prop "206-reads-that-range" else [])
       | rs =>
           let n := lenN rs in
           let multipart := (o_status o =? 206) && match cr with [] => true | _ => false end in
-          check (multipart || (o_status o =? 200) || (o_status o =? 413)) "C03" "several-ranges-multipart-or-200"
-          ++ (if (2 * (sum_lens rs + 80 * n) <? L) then check multipart "C03" "multipart-when-under-half" else [])
-          ++ (if (L <=? sum_lens rs) then check (negb multipart) "C03" "never-multipart-when-covering" else [])
+          check (multipart || (o_status o =? 200) || (o_status o =? 413)) prop "several-ranges-multipart-or-200"
+          ++ (if (2 * (sum_lens rs + 80 * n) <? L) && (lenN (each_part_headers (e_hdrs (i_ent i))) <? 4096)
+              then check multipart prop "multipart-when-under-half" else [])
+          ++ (if (L <=? sum_lens rs) then check (negb multipart) prop "never-multipart-when-covering" else [])
           ++ (if multipart && is_get i then
-                (* the body asks for exactly those ranges in request order (as far as it was polled) *)
-                check (calls_eqb (o_calls o) (firstn (List.length (o_calls o)) rs)) "C03" "multipart-ranges-in-request-order"
+                check (calls_eqb (o_calls o) (firstn (List.length (o_calls o)) rs)) prop "multipart-ranges-in-request-order"
               else [])
           ++ (if (o_status o =? 200) then
-                check (match cr with [] => true | _ => false end) "C03" "fallback-200-no-content-range" else [])
+                check (match cr with [] => true | _ => false end) prop "fallback-200-no-content-range"
+                ++ (if is_get i then check (calls_eqb (o_calls o) [(0, L)]) prop "fallback-200-full-body" else [])
+              else [])
       end
   end.
+
+Definition spec_c03 (i : sinput) (hint : range_hint) (o : sobs) : list val :=
+  if negb (only_range (i_req i)) || negb (is_get i || is_head i) then [] else range_expect "C03" i hint o.
+
+(* ---- C04: conditional headers ---- *)
+Definition dec_tag (v : val) : option tag :=
+  match v with
+  | VL [VN w; VB o] => Some {| t_weak := negb (w =? 0); t_opaque := o |}
+  | _ => None
+  end.
+Definition dec_tag_list (v : val) : option tag_list :=
+  match v with
+  | VL [VN 0] => Some TStar
+  | VL [VN 1; VL (t :: r)] =>
+      match dec_tag t, vall (vpair vbytes dec_tag) r with
+      | Some t, Some r => Some (TList t r)
+      | _, _ => None
+      end
+  | _ => None
+  end.
+(* the entity's own tag as an AST (hint key 4) *)
+Definition hint_tag (k : N) (i : sinput) : option (option tag) :=
+  match hint_get k (hints_of (i_hints i)) with
+  | Some v => match vopt dec_tag v with Some t => Some t | None => None end
+  | None => None
+  end.
+Definition hint_tags (k : N) (i : sinput) (present : bool) : option (option tag_list) :=
+  if negb present then Some None else
+  match hint_get k (hints_of (i_hints i)) with
+  | Some v => match dec_tag_list v with Some l => Some (Some l) | None => None end
+  | None => None
+  end.
+Definition is_some {A} (o : option A) : bool := match o with Some _ => true | None => false end.
+(* a date header is well-formed when the oracle parses it *)
+Definition hint_date (i : sinput) (h : option bytes) : option (option N) :=
+  match h with
+  | None => Some None
+  | Some v => match to_str v with
+              | None => None
+              | Some s => match lookup_date (i_dates i) s with Some d => Some (Some d) | None => None end
+              end
+  end.
+
+Definition spec_c04 (i : sinput) (o : sobs) : list val :=
+  if negb (is_get i || is_head i) then [] else
+  let r := i_req i in
+  match hint_tag 4 i, hint_tags 2 i (is_some (r_if_match r)), hint_tags 3 i (is_some (r_inm r)),
+        hint_date i (r_ims r), hint_date i (r_ius r) with
+  | Some etag, Some im, Some inm, Some ims, Some ius =>
+      match decide etag (option_map (fun m => m / NS) (e_lm (i_ent i))) im inm ims ius with
+      | D412 => check (o_status o =? 412) "C04" "expected-412"
+      | D304 => check (o_status o =? 304) "C04" "expected-304"
+      | DContinue => check (negb (memN (o_status o) [412; 304; 400])) "C04" "expected-to-continue-to-range-selection"
+      end
+  | _, _, _, _, _ => []       (* not a well-formed-validators case: no claim *)
+  end.
+
+(* ---- C05: If-Range ---- *)
+Definition only_range_ifrange (r : request) : bool :=
+  match r_if_match r, r_inm r, r_ims r, r_ius r with
+  | None, None, None, None => true
+  | _, _, _, _ => false
+  end.
+Definition spec_c05 (i : sinput) (hint : range_hint) (o : sobs) : list val :=
+  if negb (is_get i || is_head i) then [] else
+  match r_if_range (i_req i) with
+  | None => []
+  | Some ifr =>
+      let matching := match e_etag (i_ent i) with
+                      | Some e => beq_bytes ifr e && starts_with [34] e
+                      | None => false
+                      end in
+      if matching then
+        (if only_range_ifrange (i_req i) then range_expect "C05" i hint o else [])
+      else
+        check (negb (o_status o =? 206)) "C05" "never-206-without-identical-strong-validator"
+        ++ check (negb (has_hdr H_CONTENT_RANGE (o_hdrs o)) || (o_status o =? 416) && false) "C05" "no-content-range-when-if-range-fails"
+        ++ (if only_range_ifrange (i_req i) then
+              check (o_status o =? 200) "C05" "complete-200-when-if-range-fails"
+              ++ (if is_get i then check (calls_eqb (o_calls o) [(0, e_len (i_ent i))]) "C05" "complete-body-when-if-range-fails" else [])
+            else [])
+  end.
+
+(* ---- C06: multipart wire format ---- *)
+Definition is_multipart (o : sobs) : bool :=
+  (o_status o =? 206) && negb (has_hdr H_CONTENT_RANGE (o_hdrs o)) && has_hdr H_CONTENT_TYPE (o_hdrs o).
+Definition spec_c06 (i : sinput) (hint : range_hint) (o : sobs) : list val :=
+  if negb (is_multipart o) then [] else
+  let L := e_len (i_ent i) in
+  let ehdrs := match r_if_range (i_req i) with Some _ => [] | None => e_hdrs (i_ent i) end in
+  check (match hdr_values H_CONTENT_TYPE (o_hdrs o) with
+         | [v] => starts_with (bs "multipart/byteranges") v && beq_bytes v (bs "multipart/byteranges; boundary=B")
+         | _ => false end) "C06" "content-type-multipart-byteranges-with-boundary"
+  ++ match hint with
+     | RHAst ast =>
+         let rs := filter_map (resolve1 L) (map snd ast) in
+         check (match hdr_values H_CONTENT_LENGTH (o_hdrs o) with
+                | [v] => beq_bytes v (dec (mp_wire_len L ehdrs rs)) | _ => false end) "C06" "content-length-equals-wire-length"
+         ++ (if is_get i then
+               let (pre, term) := until_terminal (o_polls o) in
+               let honest := honest_all (i_streams i) (o_calls o) in
+               match term with
+               | Some OEnd =>
+                   if honest && (sum_lens rs <=? 1048576) then
+                     check (beq_bytes (all_data pre) (mp_wire content L ehdrs rs)) "C06" "body-is-the-multipart-wire-format"
+                     ++ check (calls_eqb (o_calls o) rs) "C06" "one-read-per-range-in-request-order"
+                   else []
+               | _ => []
+               end
+             else [])
+     | _ => []
+     end.
+
+(* ---- C07: short, long or failing entity streams ---- *)
+Fixpoint stream_total (s : list ev) : N := match s with [] => 0 | e :: t => lenN (ev_data e) + stream_total t end.
+Fixpoint streams_complete (ss : list (list ev)) (calls : list (N * N)) : bool :=
+  match ss, calls with
+  | s :: ss', (a, e) :: cs' => negb (existsb ev_is_err s) && (stream_total s =? e - a) && streams_complete ss' cs'
+  | _, [] => true
+  | [], _ :: _ => false
+  end.
+(* no non-empty data once the announced number of bytes has been delivered *)
+Fixpoint no_data_beyond (announced : N) (p : list (ores * option N * bool)) : bool :=
+  match p with
+  | [] => true
+  | (r, _, _) :: t =>
+      let n := lenN (data_of r) in
+      if announced <? n then false else no_data_beyond (announced - n) t
+  end.
+Definition spec_c07 (i : sinput) (o : sobs) : list val :=
+  if negb (is_get i) || negb (memN (o_status o) [200; 206]) then [] else
+  let (pre, term) := until_terminal (o_polls o) in
+  (match term with
+   | Some OEnd => check (streams_complete (i_streams i) (o_calls o)) "C07" "clean-end-only-when-every-stream-was-complete"
+   | _ => []
+   end)
+  ++ match o_hint0 o with
+     | Some h => check (no_data_beyond h (o_polls o)) "C07" "nothing-beyond-announced-length"
+     | None => []
+     end.
+
+(* ---- C12: size hints and end-of-stream flag ---- *)
+Fixpoint hints_truthful (p : list (ores * option N * bool)) : bool * N :=
+  (* returns (ok, bytes delivered from here to the end) *)
+  match p with
+  | [] => (true, 0)
+  | (r, h, e) :: t =>
+      let (ok, rest) := hints_truthful t in
+      (* the hint sampled after this poll must equal what is still to come *)
+      (ok && opt_eqb h (Some rest), lenN (data_of r) + rest)
+  end.
+Fixpoint eos_truthful (p : list (ores * option N * bool)) (eos_before : bool) : bool :=
+  match p with
+  | [] => true
+  | (r, _, e) :: t =>
+      (if eos_before then negb (is_err r) && (lenN (data_of r) =? 0) else true) && eos_truthful t (eos_before || e)
+  end.
+Definition spec_c12 (i : sinput) (o : sobs) : list val :=
+  let (pre, term) := until_terminal (o_polls o) in
+  check (is_some (o_hint0 o)) "C12" "serve-bodies-give-exact-hints"
+  ++ (match term with
+      | Some OEnd =>
+          if streams_complete (i_streams i) (o_calls o) then
+            let (ok, total) := hints_truthful pre in
+            check ok "C12" "hint-equals-bytes-still-to-come-at-every-step"
+            ++ check (opt_eqb (o_hint0 o) (Some total)) "C12" "initial-hint-equals-body-length"
+          else []
+      | _ => []
+      end)
+  ++ (if honest_all (i_streams i) (o_calls o) then
+        check (eos_truthful (o_polls o) (o_eos0 o)) "C12" "end-of-stream-flag-means-nothing-more-comes"
+      else []).
+
+(* ---- C13: totality ---- *)
+Definition has_panic (p : list (ores * option N * bool)) : bool :=
+  existsb (fun x => match fst (fst x) with OPanic => true | _ => false end) p.
+Definition lower (b : N) : N := if (65 <=? b) && (b <=? 90) then b + 32 else b.
+Fixpoint contains (needle hay : bytes) : bool :=
+  match hay with
+  | [] => match needle with [] => true | _ => false end
+  | _ :: t => starts_with needle hay || contains needle t
+  end.
+Definition spec_c13 (i : sinput) (o : sobs) : list val :=
+  check (negb (has_panic (o_polls o))) "C13" "draining-never-panics"
+  ++ check (memN (o_status o) [200; 206; 304; 400; 405; 412; 413; 416]) "C13" "status-in-allowed-set"
+  ++ (if is_get i || is_head i then [] else
+        check (o_status o =? 405) "C13" "other-methods-get-405"
+        ++ check (match hdr_values H_ALLOW (o_hdrs o) with
+                  | [v] => let lv := map lower v in contains (bs "get") lv && contains (bs "head") lv
+                  | _ => false end) "C13" "allow-names-get-and-head"
+        ++ check (match o_calls o with [] => true | _ => false end) "C13" "405-reads-no-entity-data"
+        ++ check (negb (has_hdr H_ETAG (o_hdrs o)) && negb (has_hdr H_LAST_MODIFIED (o_hdrs o))
+                  && forallb (fun kv => negb (has_hdr (fst kv) (o_hdrs o))) (e_hdrs (i_ent i))) "C13" "405-carries-no-entity-metadata").
+
+(* ---- C14: validators and metadata ---- *)
+Definition at_secs (v : bytes) : option N := match v with 64 :: d => parse_pos d | _ => None end.
+Definition spec_c14 (i : sinput) (o : sobs) : list val :=
+  let ent := i_ent i in
+  (if memN (o_status o) [200; 206; 304; 412; 416] then
+     check (match hdr_values H_ACCEPT_RANGES (o_hdrs o) with [v] => beq_bytes v (bs "bytes") | _ => false end) "C14" "accept-ranges-bytes"
+     ++ check (match e_etag ent, hdr_values H_ETAG (o_hdrs o) with
+               | Some e, [v] => beq_bytes e v | None, [] => true | _, _ => false end) "C14" "etag-verbatim"
+     ++ match e_lm ent with
+        | None => []
+        | Some m =>
+            match option_map at_secs (hdr1 H_DATE (o_hdrs o)), option_map at_secs (hdr1 H_LAST_MODIFIED (o_hdrs o)) with
+            | Some (Some d), Some (Some l) =>
+                check (l <=? d) "C14" "last-modified-not-after-date"
+                ++ check (if m / NS <=? d then l =? m / NS else l =? d) "C14" "last-modified-is-mtime-truncated-unless-future"
+            | _, _ => [clause "C14" "date-and-last-modified-present-and-well-formed"]
+            end
+        end
+   else [])
+  ++ (let carries_all := forallb (fun kv => existsb (beq_bytes (snd kv)) (hdr_values (fst kv) (o_hdrs o))) (e_hdrs ent) in
+      let carries_none := forallb (fun kv => negb (has_hdr (fst kv) (o_hdrs o))) (e_hdrs ent) in
+      if (o_status o =? 200) || ((o_status o =? 206) && has_hdr H_CONTENT_RANGE (o_hdrs o) && negb (is_some (r_if_range (i_req i))))
+      then check carries_all "C14" "200-and-206-without-if-range-carry-entity-headers"
+      else if memN (o_status o) [304; 412; 416] then check carries_none "C14" "304-412-416-carry-no-entity-headers"
+      else [])
+  ++ (* echo histories: hint key 5 = expected outcome of a request that echoes served validators:
+        0 -> must be 304; 1 -> must not be 412; 2 -> must be 206 *)
+     match hint_get 5 (hints_of (i_hints i)) with
+     | Some (VN 0) => check (o_status o =? 304) "C14" "echoed-validator-yields-304"
+     | Some (VN 1) => check (negb (o_status o =? 412)) "C14" "echoed-validator-does-not-yield-412"
+     | Some (VN 2) => check (o_status o =? 206) "C14" "echoed-strong-etag-in-if-range-yields-206"
+     | _ => []
+     end.
+
+(* ---- C15: HEAD ---- *)
+Definition spec_c15 (i : sinput) (o : sobs) : list val :=
+  if negb (is_head i) then [] else
+  check (match o_calls o with [] => true | _ => false end) "C15" "head-reads-no-entity-bytes"
+  ++ (if memN (o_status o) [200; 206; 304; 416] then
+        check (lenN (all_data (o_polls o)) =? 0) "C15" "head-body-empty" else []).
+
+(* ---- C20: terminated bodies stay terminated (scripts are fused by construction) ---- *)
+Fixpoint after_terminal_ok (p : list (ores * option N * bool)) (terminated : bool) : bool :=
+  match p with
+  | [] => true
+  | (r, _, _) :: t =>
+      (* never further data, never a panic; a stream that is not itself finished (the body's own
+         too-long error) may still be Pending or hand over an empty chunk *)
+      (if terminated then (is_end r || is_err r || match r with OPending => true | OData [] => true | _ => false end) else true)
+      && after_terminal_ok t (terminated || is_end r || is_err r)
+  end.
+Definition fused_stream (s : list ev) : bool :=
+  match rev s with
+  | [] => true
+  | _ :: before => negb (existsb ev_is_err before)
+  end.
+Definition spec_c20 (i : sinput) (o : sobs) : list val :=
+  if forallb fused_stream (i_streams i) then
+    check (after_terminal_ok (o_polls o) false) "C20" "no-data-after-end-or-error"
+    ++ check (negb (has_panic (o_polls o))) "C20" "extra-polls-never-panic"
+  else [].
+
+Definition spec_serve_all (i : sinput) (o : sobs) : list val :=
+  let hint := dec_range_hint (i_hints i) in
+  spec_c01 i o ++ spec_c02 i o ++ spec_c03 i hint o ++ spec_c04 i o ++ spec_c05 i hint o ++ spec_c06 i hint o
+  ++ spec_c07 i o ++ spec_c12 i o ++ spec_c13 i o ++ spec_c14 i o ++ spec_c15 i o ++ spec_c20 i o.
 
 (* coverage tag of the model's own decision, for branch-coverage accounting *)
 Definition tag_serve (i : sinput) : bytes :=
